@@ -25,7 +25,10 @@ UNIT_KIND = {   # harness kind -> (model kind code, site id)
     "generateTLSPassthroughHostsConfig": (5, "generateTLSPassthroughHostsConfig#0"),
     "GenerateVirtualServerConfig": (6, "virtualServerConfigurator.GenerateVirtualServerConfig#0"),
     "generatePolicies": (7, "virtualServerConfigurator.generatePolicies#0"),
+    # no map range of its own in the tree as it stands (labels.Set.String sorts): a pseudo-site, deterministic by default
+    "GenerateEndpointsKey": (8, "GenerateEndpointsKey"),
 }
+PSEUDO_SITES = {"GenerateEndpointsKey"}
 # unit kinds that project the order-sensitive half of a site the table marks "off the generation path"
 OFFPATH_PROJECTION = {"filterMasterAnnotations", "filterMinionAnnotations"}
 
@@ -244,7 +247,7 @@ def case_to_coq(c, status):
         return "history_case %d %s %s %d%%nat %s" % (c["id"], fd(o.get("b_fresh")), C.cq_list([fd(x) for x in o["others"]]),
                                                     len(o.get("mutated") or []), C.cq_bool(not o.get("a_equals_b")))
     kind, sid = UNIT_KIND[c["kind"]]
-    code = status.get(sid, 9)
+    code = status.get(sid, 0 if sid in PSEUDO_SITES else 9)
     det = code <= 1 and c["kind"] not in OFFPATH_PROJECTION
     return "unit_case %d %d %s %s %s %s %s %s" % (
         c["id"], kind, C.cq_bool(det), C.cq_bool(code == 0), cq_pairs(o.get("bindings") or []),
@@ -354,7 +357,7 @@ def judge(run, cases, res, status, verbose=False):
                             theorem="Determ.Model.history_ok (C09_history_ok_sound, C09_render_history_deepcopy)")
         else:
             kind, sid = UNIT_KIND[c["kind"]]
-            code = status.get(sid, 9)
+            code = status.get(sid, 0 if sid in PSEUDO_SITES else 9)
             offpath = c["kind"] in OFFPATH_PROJECTION
             if verbose:
                 print("replay case %d (%s, n=%s): %d distinct outputs over %d calls; model-agrees=%d spec=%d"
@@ -387,6 +390,22 @@ def check(run):
     cases = merge(per_proc)
     res = evaluate(cases, status, run.tier)
     seen = judge(run, cases, res, status)
+    # A new or changed map-range site (or another source of nondeterminism) breaks the proof obligation.  Do not stop at
+    # "no failing input found": SEARCH for one -- more fixtures, other seeds -- and report what the search found.
+    suspicious = sorted(k for k, v in status.items() if v >= 8)
+    if (suspicious or nondet) and not any(g["failing_input_found"] for g in run._groups.values()):
+        tries = 0
+        for k in range(1, 4 if run.tier == "quick" else 8):
+            tries += 1
+            pp = run_processes(binary, ["-seed", str(run.seed * 7919 + k), "-n", str(3 * n), "-tier", run.tier], "%s_search%d" % (run.tier, k))
+            cs = merge(pp)
+            for c in cs:
+                c["id"] += 100000 * k
+            judge(run, cs, evaluate(cs, status, "%s_search%d" % (run.tier, k)), status)
+            if any(g["failing_input_found"] for g in run._groups.values()):
+                break
+        run.cov["search_for_failing_input"] = {"because": suspicious + ["nondeterminism use"] * bool(nondet), "extra_runs": tries,
+                                               "found": any(g["failing_input_found"] for g in run._groups.values())}
     # a site the model refutes must have been seen to differ on the real code (otherwise the finding is not reproduced)
     for sid, code in sorted(status.items()):
         if code == 3 and sid not in seen:
@@ -396,7 +415,9 @@ def check(run):
     for c in [x for x in cases if x["fam"] == "render"][:2] + [x for x in cases if x["fam"] == "unit"][:1] + [x for x in cases if x["fam"] == "history"][:1]:
         run.sample(slim(c))
     run.cov["processes"] = PROCS
-    run.cov["rule"] = ("render: 20 fixed fixtures (API-key Secret with 5 and 12 keys; 6 Secrets whose client ids collide under case folding / punctuation trimming / "
+    run.cov["rule"] = ("render: 25 fixed fixtures (upstreams selected by 2-4 subselector labels, endpoint sets keyed by GenerateEndpointsKey as the controller keys them, and "
+                       "`vsctl` fixtures that go through the controller's real createVirtualServerEx over stores of Services / EndpointSlices / labelled Pods; "
+                       "API-key Secret with 5 and 12 keys; 6 Secrets whose client ids collide under case folding / punctuation trimming / "
                        "separator folding / numeric padding; API-key policies in spec + routes + VirtualServerRoute subroutes; tiered rate-limit policies with 3-4 JWT claims in "
                        "one and two scopes; header lists, 5 upstreams x 4 endpoints, splits, matches; Ingress with 12+ annotations, 5 services, health checks; mergeable Ingress "
                        "with denied/inherited annotations and 3 minions; TransportServer with 5 upstreams; 5 TLS-passthrough TransportServers) + -n generated size variations, "
@@ -405,7 +426,10 @@ def check(run):
                        "unit: 10 map-ranging functions x sizes 2..13 + 8 near-duplicate key sets (case, punctuation, separators, padding, unicode) x 400 calls x 3 processes.  "
                        "history: 8 update scenarios (master / minion / Ingress annotation, Policy, Secret, VirtualServer route, TransportServer upstream replaced by a modified copy "
                        "while all other objects keep their identity) x both template sets + -n/4 generated: input A, then B, then B again in one Configurator, B in a fresh "
-                       "Configurator from pristine objects, in 3 processes; all renderings of B must be byte-identical and no stored object modified.  A case is distinct by "
+                       "Configurator from pristine objects, in 3 processes; all renderings of B must be byte-identical and no stored object modified; plus settings histories: "
+                       "4 custom-template ConfigMap keys (main / ingress / virtualserver / transportserver) x 7 sequences (set-remove-set same / other text, set-other-back, "
+                       "unset-set-unset, ...) through the real ParseConfigMap -> CfgParams -> Configurator.UpdateConfig with one resource of every kind, compared with a fresh "
+                       "Configurator given only the last ConfigMap.  A case is distinct by "
                        "(family, fixture, plus, seed, sizes); non-trivial: largest unordered collection >= 2 entries (render/unit), A and B render differently (history).")
     run.cov["trusted_base"] = TRUSTED
     run.assumptions += [
